@@ -1376,6 +1376,61 @@ fn close_database(transaction_tracker: &Arc<TransactionTracker>, mem: &Arc<Trans
     }
 }
 
+/// Verification hook: read-only copy of the page manager's in-memory state. Page numbers are in
+/// their serialized (u64) form; roots are (page, checksum, length).
+#[cfg(redb_verif)]
+#[derive(Clone, Debug)]
+pub struct VerifMemSnapshot {
+    pub page_size: u32,
+    pub region_header_pages: u32,
+    pub region_max_data_pages: u32,
+    pub full_regions: u32,
+    pub trailing_pages: u32,
+    /// per region, per order-0 page: allocated? `None` if no allocator state is loaded
+    pub allocated: Option<Vec<Vec<bool>>>,
+    pub data_root: Option<(u64, u128, u64)>,
+    pub system_root: Option<(u64, u128, u64)>,
+    pub last_committed_transaction: u64,
+    pub durable_data_root: Option<(u64, u128, u64)>,
+    pub durable_system_root: Option<(u64, u128, u64)>,
+    pub last_durable_transaction: u64,
+    pub read_from_secondary: bool,
+    pub needs_repair: bool,
+    pub unpersisted_pages: Vec<u64>,
+    pub unpersisted_allocations: Vec<(u64, u64)>,
+    pub unpersisted_data_freed: Vec<(u64, u64)>,
+    pub post_commit_allocations: Vec<u64>,
+}
+
+/// Verification hook: read-only copy of the transaction tracker's bookkeeping
+#[cfg(redb_verif)]
+#[derive(Clone, Debug)]
+pub struct VerifTrackerSnapshot {
+    pub live_read_transactions: Vec<(u64, u64)>,
+    pub live_write_transaction: Option<u64>,
+    pub next_transaction_id: u64,
+    pub valid_savepoints: Vec<(u64, u64)>,
+    pub persistent_savepoints: Vec<u64>,
+    pub pending_non_durable_commits: Vec<(u64, u64)>,
+    pub unprocessed_freed_non_durable_commits: Vec<u64>,
+}
+
+#[cfg(redb_verif)]
+impl Database {
+    /// Verification hook: snapshot of allocation state, roots and tracker bookkeeping
+    pub fn verif_snapshot(&self) -> (VerifMemSnapshot, VerifTrackerSnapshot) {
+        (
+            self.mem.verif_snapshot(),
+            self.transaction_tracker.verif_snapshot(),
+        )
+    }
+
+    /// Verification hook: page bytes as a reader sees them (through the write buffer)
+    pub fn verif_read_page(&self, raw_page_number: u64) -> Option<Vec<u8>> {
+        self.mem.verif_read_page(raw_page_number)
+    }
+}
+
 impl Drop for Database {
     fn drop(&mut self) {
         if self
